@@ -405,3 +405,18 @@ package rdb
 //@ trusted
 //@ updates catchups
 //@ ensures catchups == old(catchups) + 1
+
+// ---- C14: the iterator pool ----------------------------------------------------------------------------------------
+// disable() and enable() drain / refill the pool's channel while holding pool.l. The two operations that lookups
+// perform on the same channel (get: receive, put: send) must therefore never run with pool.l held: they would wait
+// for a counterpart that is itself waiting for the lock (or for them).
+//@ func IteratorPool.get
+//@ flag skip frame
+//@ flag nolockchan pool.l
+//@ requires pool != nil
+//@ ensures[unlocked] held(pool.l) == 0
+//@ func IteratorPool.put
+//@ flag skip frame
+//@ flag nolockchan pool.l
+//@ requires pool != nil
+//@ ensures[unlocked] held(pool.l) == 0
